@@ -1,6 +1,7 @@
 package mon
 
 import (
+	"errors"
 	"fmt"
 	"runtime"
 	"strings"
@@ -186,7 +187,7 @@ func init() {
 									bad = true
 									break
 								}
-							} else if terr != wkt.ErrIncorrectGeometry {
+							} else if !errors.Is(terr, wkt.ErrIncorrectGeometry) {
 								c.Fail("", "wkt."+tf.name+" does not report ErrIncorrectGeometry for text of another kind", map[string]interface{}{"case": d(), "err": sv(terr), "got": sv(tg)})
 								bad = true
 								break
@@ -248,7 +249,7 @@ func init() {
 								} else {
 									got, err = c04typed[j.tf].f(j.text)
 								}
-								if err != j.err || (err == nil && !refmodel.EqualBits(got, j.want)) {
+								if (err == nil) != (j.err == nil) || (err != nil && err.Error() != j.err.Error()) || (err == nil && !refmodel.EqualBits(got, j.want)) {
 									if atomic.AddInt64(&bad, 1) == 1 {
 										first.Store(fmt.Sprintf("text %q (parser %d): alone %v / %v, at the same time as other parses %v / %v", j.text, j.tf, sv(j.want), j.err, sv(got), err))
 									}
